@@ -135,6 +135,16 @@ def aec_heavy_histories(rng, n):
         ops.append({"op": "qr", "r": histgen.gen_qr(rng, pools, 1000000, 1500000000)})
         hs.append({"comp": ["none", "gz", "xz"][i % 3], "out": ["file", "fd"][i % 2],
                    "preamble": {"major": histgen.nat(1), "minor": [], "private": histgen.nat(1), "bps": [bp]}, "ops": ops})
+    # a rotation that cannot succeed (closed descriptor, unopenable name) in the middle of the work, the exporter used on
+    # and destroyed later: whatever the library does then stays within the thread's own outputs (the process-wide
+    # descriptor table is shared state too)
+    for i in range(n // 2):
+        pools = histgen.Pools(rng)
+        bp = histgen.gen_bp(rng, pools, tps=1000000, maxitems=rng.choice([3, 10000]), hints=(histgen.ALL_QRH, histgen.ALL_SIGH, 3, 3))
+        recs = lambda k: [{"op": "qr", "r": histgen.gen_qr(rng, pools, 1000000, 1500000000)} for _ in range(k)]
+        ops = recs(rng.choice([2, 40])) + [{"op": "wb"}] + recs(3) + [{"op": "rotbad", "export": i % 2 == 0}] + recs(rng.choice([5, 60])) + [{"op": "wb"}]
+        hs.append({"comp": ["none", "gz"][i % 2], "out": ["fd", "fd", "file"][i % 3],
+                   "preamble": {"major": histgen.nat(1), "minor": [], "private": histgen.nat(1), "bps": [bp]}, "ops": ops})
     return hs
 
 
